@@ -78,6 +78,68 @@ def stores_in(fn, shared_names):
     return out
 
 
+def diagnostic_reads(fn):
+    """statements of `fn` (nested functions included) in which a diagnostic (`self.<DIAGNOSTIC>` or a local alias of one of
+    its items) is READ by something other than the bookkeeping of the diagnostics themselves.  Allowed: stores / augmented
+    stores whose target is the diagnostic (whatever the value reads), `alias = self.<diag>[...]`, and an `if` on a diagnostic
+    whose body only stores to diagnostics.  Everything else that mentions one - a test, an iteration, a value assigned
+    elsewhere, an argument - lets a counter that tasks update without a lock steer the computation."""
+    aliases = set()
+
+    def is_diag(e):
+        while isinstance(e, ast.Subscript):
+            e = e.value
+        if isinstance(e, ast.Attribute) and isinstance(e.value, ast.Name) and e.value.id == "self" and e.attr in DIAGNOSTIC:
+            return True
+        return isinstance(e, ast.Name) and e.id in aliases
+
+    def mentions(node):
+        for n in ast.walk(node):
+            if isinstance(n, ast.Attribute) and isinstance(n.value, ast.Name) and n.value.id == "self" and n.attr in DIAGNOSTIC:
+                return True
+            if isinstance(n, ast.Name) and n.id in aliases:
+                return True
+        return False
+
+    def book(s):
+        if isinstance(s, (ast.Assign, ast.AugAssign)):
+            targets = s.targets if isinstance(s, ast.Assign) else [s.target]
+            if all(is_diag(t) for t in targets):
+                return True
+            if isinstance(s, ast.Assign) and len(targets) == 1 and isinstance(targets[0], ast.Name) and is_diag(s.value):
+                aliases.add(targets[0].id)
+                return True
+        if isinstance(s, ast.If) and not s.orelse and all(book(b) for b in s.body):
+            return True
+        return False
+
+    reads = []
+
+    def visit(stmts):
+        for s in stmts:
+            if book(s):
+                continue
+            headers = []
+            bodies = []
+            if isinstance(s, (ast.For, ast.While, ast.If, ast.With, ast.Try, ast.FunctionDef)):
+                for fld in ("body", "orelse", "finalbody"):
+                    bodies += getattr(s, fld, []) or []
+                for h in getattr(s, "handlers", []) or []:
+                    bodies += h.body
+                for fld in ("test", "iter", "target"):
+                    if getattr(s, fld, None) is not None:
+                        headers.append(getattr(s, fld))
+                for it in getattr(s, "items", []) or []:
+                    headers.append(it.context_expr)
+                if any(mentions(h) for h in headers):
+                    reads.append(ast.unparse(s).split("\n")[0][:70])
+                visit(bodies)
+            elif mentions(s):
+                reads.append(ast.unparse(s).split("\n")[0][:70])
+    visit(fn.body)
+    return reads
+
+
 def facts(src, clsname, product_expr):
     tree = ast.parse(src)
     cls = next(n for n in tree.body if isinstance(n, ast.ClassDef) and n.name == clsname)
@@ -108,6 +170,7 @@ def facts(src, clsname, product_expr):
             if isinstance(n, ast.Name) and isinstance(n.ctx, ast.Store):
                 outer_names.add(n.id)
     f["sharedStores"] = stores_in(task, outer_names)
+    f["diagnosticReads"] = diagnostic_reads(calc)
     views = [ast.unparse(n) for n in ast.walk(task) if isinstance(n, ast.Assign) and ast.unparse(n.targets[0]) == "regions"]
     f["viewSelection"] = views
     flat = [ast.unparse(n.value) for n in ast.walk(task) if isinstance(n, ast.Assign) and ast.unparse(n.targets[0]) == "flattened_slice"]
@@ -153,10 +216,11 @@ def facts(src, clsname, product_expr):
 def lean_facts(name, f):
     b = lambda x: "true" if x else "false"
     return ("def %s : DriverFacts := {\n  regionsPerCall := %s,\n  callbackFirst := %s,\n  callbackSites := %d,\n  taskReturnsEarly := %s,\n"
-            "  sharedStores := [%s],\n  viewSelection := [%s],\n  flattened := [%s],\n  serialLoop := %s,\n  workerHandsBack := %s,\n"
+            "  sharedStores := [%s],\n  diagnosticReads := [%s],\n  viewSelection := [%s],\n  flattened := [%s],\n  serialLoop := %s,\n  workerHandsBack := %s,\n"
             "  poolMapReraise := %s }\n" % (
                 name, b(f["regionsPerCall"]), b(f["callbackFirst"]), f["callbackSites"], b(f["taskReturnsEarly"]),
-                ", ".join(lean_str(s) for s in f["sharedStores"]), ", ".join(lean_str(s) for s in f["viewSelection"]),
+                ", ".join(lean_str(s) for s in f["sharedStores"]), ", ".join(lean_str(s) for s in f["diagnosticReads"]),
+                ", ".join(lean_str(s) for s in f["viewSelection"]),
                 ", ".join(lean_str(s) for s in f["flattened"]), b(f["serialLoop"]), b(f["workerHandsBack"]), b(f["poolMapReraise"])))
 
 
